@@ -502,6 +502,7 @@ type FuncContract struct {
 	Defines    *ECall // `defines result == F(params)`: definitional name of the closure a constructor returns
 	NoVerify   bool
 	Flows      []*FlowClause
+	Asset      *AssetSpec // data obligations over embedded files (asset.go)
 }
 
 type LetDef struct {
@@ -551,7 +552,7 @@ func NewSpecSet() *SpecSet {
 
 var clauseKeywords = map[string]bool{"spec": true, "axiom": true, "ghost": true, "func": true, "requires": true, "ensures": true,
 	"modifies": true, "loop": true, "at": true, "maypanic": true, "inline": true, "trusted": true, "pure": true, "check": true,
-	"let": true, "chanmode": true, "chaninv": true, "defines": true, "maintains": true, "thorough": true, "secret": true, "flows": true, "noverify": true, "ghostparam": true}
+	"let": true, "chanmode": true, "chaninv": true, "defines": true, "maintains": true, "thorough": true, "secret": true, "flows": true, "asset": true, "noverify": true, "ghostparam": true}
 
 // ReadSpecFile reads //@ lines. pkgPrefix is prepended to `func` keys that are
 // not already qualified (contract files inside a package use short keys).
@@ -651,6 +652,17 @@ func (ss *SpecSet) ReadSpecFile(path, pkgPrefix string) error {
 				}
 			}
 			ss.Secrets[sf.Field] = sf
+		case "asset":
+			as, props, err := parseAssetHead(rest)
+			if err != nil {
+				fail(rc.line, "%v", err)
+				continue
+			}
+			cur = &FuncContract{Key: "asset:" + as.Glob, Props: props, File: path, Line: rc.line, Asset: as, Pure: true}
+			if _, dup := ss.Funcs[cur.Key]; dup {
+				fail(rc.line, "duplicate asset block for %s", as.Glob)
+			}
+			ss.Funcs[cur.Key] = cur
 		case "thorough", "func":
 			thor := kw == "thorough"
 			if thor {
